@@ -30,6 +30,14 @@ import logging
 from ..model import SERRecord, TraceDriver
 
 
+def _repr_fallback(obj: Any) -> str:
+    """Last-resort text for a value ``json.dumps`` cannot encode."""
+    try:
+        return repr(obj)
+    except Exception:  # pragma: no cover - defensive
+        return f"<unrepresentable {type(obj).__name__}>"
+
+
 def _string_keys(obj: Any) -> Any:
     """Copy of ``obj`` in which every mapping key is a string."""
     if isinstance(obj, dict):
@@ -207,8 +215,13 @@ class JsonlTraceDriver(TraceDriver):
             }
             # Mapping keys of mixed types (legal in a context value or parameter)
             # cannot be sorted: write them as strings instead of failing the run.
+            # Values JSON cannot encode (a set appended in place to a list that
+            # was resolved from the context, ...) are written as their repr.
             self._file.write(
-                json.dumps(_string_keys(cleaned), sort_keys=True) + "\n"
+                json.dumps(
+                    _string_keys(cleaned), sort_keys=True, default=_repr_fallback
+                )
+                + "\n"
             )
 
     def on_pipeline_end(self, run_id: str, summary: dict) -> None:
